@@ -17,30 +17,36 @@ import time
 from vh import runner as R
 
 
-def f0(x, witness=None, kw=None):
+def f0(x, witness=None, kw=None, hold=None):
     import os as _os, time as _t
     if witness:
         fd = _os.open(witness, _os.O_WRONLY | _os.O_APPEND | _os.O_CREAT)
         _os.write(fd, f"f0 {x} {kw} {_os.getpid()} {_t.monotonic():.6f}\n".encode())
         _os.close(fd)
+    if hold:
+        _t.sleep(hold)
     return ("f0", x + 1000, kw)
 
 
-def f1(x, witness=None, kw=None):
+def f1(x, witness=None, kw=None, hold=None):
     import os as _os, time as _t
     if witness:
         fd = _os.open(witness, _os.O_WRONLY | _os.O_APPEND | _os.O_CREAT)
         _os.write(fd, f"f1 {x} {kw} {_os.getpid()} {_t.monotonic():.6f}\n".encode())
         _os.close(fd)
+    if hold:
+        _t.sleep(hold)
     return ["f1", x * 2, {"kw": kw}]
 
 
-def f2(x, witness=None, kw=None):
+def f2(x, witness=None, kw=None, hold=None):
     import os as _os, time as _t
     if witness:
         fd = _os.open(witness, _os.O_WRONLY | _os.O_APPEND | _os.O_CREAT)
         _os.write(fd, f"f2 {x} {kw} {_os.getpid()} {_t.monotonic():.6f}\n".encode())
         _os.close(fd)
+    if hold:
+        _t.sleep(hold)
     return x - 7 if kw is None else (x, kw)
 
 
@@ -134,12 +140,18 @@ def main():
             kw.update(block_allocation=False, max_cores=scen.get("workers", 1))
         exe = executorlib.Executor(**kw)
         futs = []
+        cancels = {}
         for call in sess:
             R._tls.attempt = cid
             try:
-                f = exe.submit(FNS[call["fn"]], call["arg"], witness, kw=call.get("kw"))
+                if call.get("hold"):
+                    f = exe.submit(FNS[call["fn"]], call["arg"], witness, kw=call.get("kw"), hold=call["hold"])
+                else:
+                    f = exe.submit(FNS[call["fn"]], call["arg"], witness, kw=call.get("kw"))
             finally:
                 R._tls.attempt = None
+            if call.get("cancel"):
+                cancels[str(cid)] = bool(f.cancel())     # queued behind a slow call: usually True
             futs.append((cid, call, f))
             cid += 1
             if call.get("wait"):
@@ -149,8 +161,14 @@ def main():
                     pass
             if call.get("pause"):
                 time.sleep(call["pause"] / 1000.0)
-        rec = {"results": {}, "dir_before_shutdown": None}
+        rec = {"results": {}, "dir_before_shutdown": None, "cancels": cancels}
+        import concurrent.futures as _cf
+
         for i, call, f in futs:
+            if cancels.get(str(i)):
+                rec["results"][str(i)] = {"ok": False, "cancelled": bool(f.cancelled()), "exc": "CancelledError" if f.cancelled() else "not cancelled",
+                                          "expected": expected(call), "match": False}
+                continue
             try:
                 v = f.result(timeout=scen.get("timeout", 60))
                 rec["results"][str(i)] = {"ok": True, "value": v, "expected": expected(call), "match": v == expected(call)}
